@@ -26,7 +26,7 @@ pub const FLOAT_POOL: [f32; 16] = [
 ];
 /// values off the boundaries: powers of two and their neighbours, a narrow mid range
 pub const MID_POOL: [i32; 22] = [15, 16, 17, 31, 32, 33, 63, 64, 65, 255, 256, 257, 1000, 1023, 1024, 1025, 1050, 1099, 1100, 65535, 65536, 16777217];
-pub const NAME_POOL: [&str; 6] = ["a", "b", "c", "x1", "foo", "Bar-2"];
+pub const NAME_POOL: [&str; 12] = ["a", "b", "c", "x1", "foo", "Bar-2", "A", "FOO", "bar-2", "Foo", "f(x)", "x)"];
 
 #[derive(Clone, Copy, Debug, PartialEq)]
 pub enum Vals {
@@ -299,8 +299,38 @@ pub fn snap(r: &mut Rng, o: &StateOpts, instr_names: &[String]) -> Snap {
         }
     }
     if o.graphs {
-        for _ in 0..r.below(3) {
-            s.g.push(sgraph_spec(r, o.vals));
+        for _ in 0..r.below(4) {
+            let g = if !s.g.is_empty() && r.chance(2, 3) {
+                // a snapshot-like relative of the graph below: same node labels, a few edits
+                let mut g = s.g[s.g.len() - 1].clone();
+                for _ in 0..r.below(4) {
+                    match r.below(4) {
+                        0 if !g.nodes.is_empty() => {
+                            let k = r.below(g.nodes.len());
+                            g.nodes[k].1 = r.range(0, 3) as i32;
+                        }
+                        1 if !g.nodes.is_empty() => {
+                            let (o, d) = (g.nodes[r.below(g.nodes.len())].0, g.nodes[r.below(g.nodes.len())].0);
+                            if g.weight(o, d).is_none() {
+                                g.edges.push((d, o, fb(grid_float(r))));
+                                g.edges.sort();
+                            }
+                        }
+                        2 if !g.edges.is_empty() => {
+                            let k = r.below(g.edges.len());
+                            g.edges.remove(k);
+                        }
+                        _ => {
+                            let id = g.nodes.iter().map(|(k, _)| *k).max().unwrap_or(0) + 1;
+                            g.nodes.push((id, r.range(0, 3) as i32));
+                        }
+                    }
+                }
+                g
+            } else {
+                sgraph_spec(r, o.vals)
+            };
+            s.g.push(g);
         }
     }
     if o.bindings {
